@@ -212,6 +212,27 @@ pub fn search_c05(rng: &mut Rng, thorough: bool) -> SearchResult {
     r.dist.insert("cells_random_deep".into(), (before - n_exh) as u64);
     r.sample(format!("serialize(origin 7, segment 3, s 1234, res 9) = {:x}", serialize(&A5Cell { origin_id: 7, segment: 3, s: 1234, resolution: 9 }).unwrap()));
 
+    // descriptions that are not cells must be rejected, never encoded as the ID of another cell: positions past the end
+    // of the curve (just past, far past, and with only bits that a shift into place would drop), resolutions out of range
+    for _ in 0..(if thorough { 40_000 } else { 6_000 }) {
+        let res = rng.range_i(2, 29) as i32;
+        let bits = 2 * (res - 1) as u32;
+        let s_bad = match rng.below(3) {
+            0 => max_s(res) + rng.below(3),
+            1 => idcorr::gen_s(res, rng) | (1 + rng.below(7)).checked_shl(bits + 6).unwrap_or(0).max(max_s(res)),
+            _ => max_s(res).checked_shl(rng.below(64 - bits as u64) as u32).unwrap_or(u64::MAX),
+        };
+        if s_bad < max_s(res) {
+            continue;
+        }
+        let cell = A5Cell { origin_id: rng.below(12) as u8, segment: rng.below(5) as usize, s: s_bad, resolution: res };
+        r.evaluations += 1;
+        let c2 = cell.clone();
+        match catch_unwind(move || serialize(&c2)) {
+            Ok(Err(_)) => {}
+            other => r.viol("codec", format!("serialize({:?}) -> {:x?}, expected Err: the position is past the end of the curve ({} positions at this resolution)", cell, other.map_err(|_| "panic"), max_s(res))),
+        }
+    }
     // every ID returned by API calls is canonical
     let mut api_ids = 0u64;
     for _ in 0..(if thorough { 20_000 } else { 3_000 }) {
@@ -349,7 +370,7 @@ fn check_children(r: &mut SearchResult, c: u64, target: i32) -> Option<Vec<u64>>
 pub fn search_c07(rng: &mut Rng, thorough: bool) -> SearchResult {
     let mut r = SearchResult::default();
     let maxres = if thorough { 8 } else { 7 };
-    r.rule = format!("exhaustive tree walk: children of every cell of resolution -1..{} enumerate resolution r+1 exactly once, with count/distinctness/resolution/ancestor checks; plus random cells up to resolution 29 with multi-level children, composition of ancestors and of children. non-trivial = distinct (cell, target) pairs", maxres - 1);
+    r.rule = format!("exhaustive tree walk: children of every cell of resolution -1..{} enumerate resolution r+1 exactly once, with count/distinctness/resolution/ancestor checks; plus random cells up to resolution 29 with multi-level children (fan-out up to exactly 4^8), composition of ancestors and of children. non-trivial = distinct (cell, target) pairs", maxres - 1);
     let mut level = vec![0u64];
     for res in -1..maxres {
         let mut next: Vec<u64> = Vec::with_capacity(level.len() * 4);
@@ -408,6 +429,15 @@ pub fn search_c07(rng: &mut Rng, thorough: bool) -> SearchResult {
             r.evaluations += 1;
         }
     }
+    // the largest fan-out in scope: exactly 4^8 children (eight levels below a cell of resolution >= 1), and the
+    // resolution-6 cells of the whole world (61440)
+    for k in 0..(if thorough { 12 } else { 4 }) {
+        let res = if k == 0 { 1 } else { rng.range_i(1, 21) as i32 };
+        let c = valid_cell(rng, res);
+        check_children(&mut r, c, res + 8);
+        r.nontrivial += 1;
+    }
+    check_children(&mut r, 0, 6);
     r.sample(format!("children of base cell 3 at resolution 1: {:x?}", api::cell_to_children(a5::get_res0_cells().unwrap()[3], Some(1)).unwrap()));
     r
 }
@@ -857,6 +887,55 @@ pub fn search_c14(rng: &mut Rng, thorough: bool) -> SearchResult {
             if let Some(w) = call(&mut r, "compact", true, &mut || api::compact(&l1).map(|_| vec![])) {
                 r.viol("total:compact", format!("compact({:x?}): {}", l, w));
             }
+        }
+    }
+    // metadata functions on every pair of i32 resolutions (extremes included)
+    for _ in 0..(n / 8) {
+        let (p, c) = (idcorr::extreme_res(rng), idcorr::extreme_res(rng));
+        if let Some(w) = call(&mut r, "get_num_children", true, &mut || { let _ = a5::core::cell_info::get_num_children(p, c); Ok(vec![]) }) {
+            r.viol("total:get_num_children", format!("get_num_children({}, {}): {}", p, c, w));
+        }
+        if let Some(w) = call(&mut r, "cell_area/get_num_cells", true, &mut || { let _ = (a5::cell_area(p), a5::get_num_cells(c)); Ok(vec![]) }) {
+            r.viol("total:cell_info", format!("cell_area({}) / get_num_cells({}): {}", p, c, w));
+        }
+    }
+    // lookups exactly on the meridians that separate the quintants of the polar faces and on round coordinates
+    for k in -10i32..=10 {
+        for latk in -18i32..=18 {
+            let (lon, lat) = (-93.0 + 36.0 * k as f64, 5.0 * latk as f64);
+            let t = rng.range_i(0, 29) as i32;
+            if let Some(w) = call(&mut r, "lonlat_to_cell", false, &mut || a5::lonlat_to_cell(a5::LonLat::new(lon, lat), t).map(|x| vec![(x, Some(t))])) {
+                r.viol("total:lonlat_to_cell", format!("lonlat_to_cell(({}, {}), {}): {}", lon, lat, t, w));
+            }
+        }
+    }
+    // a library call from the destructor of another thread-local, at thread exit (must not abort the process)
+    {
+        struct Guard;
+        impl Drop for Guard {
+            fn drop(&mut self) {
+                let _ = a5::lonlat_to_cell(a5::LonLat::new(12.5, 45.25), 7).and_then(a5::cell_to_lonlat);
+            }
+        }
+        thread_local! { static G: Guard = Guard; }
+        eprintln!("CALL library calls from a thread-local destructor at thread exit (cell_to_lonlat, lonlat_to_cell)");
+        // both orders of first use: the platform may run thread-local destructors first-in-first-out or last-in-first-out
+        let ok1 = std::thread::spawn(|| {
+            G.with(|_| ());
+            let _ = a5::lonlat_to_cell(a5::LonLat::new(-74.0, 40.7), 9);
+        })
+        .join()
+        .is_ok();
+        let ok2 = std::thread::spawn(|| {
+            let _ = a5::lonlat_to_cell(a5::LonLat::new(-74.0, 40.7), 9);
+            G.with(|_| ());
+        })
+        .join()
+        .is_ok();
+        let ok = ok1 && ok2;
+        r.evaluations += 2;
+        if !ok {
+            r.viol("total:tls-drop", "a thread that uses the library from a thread-local destructor panicked at exit".into());
         }
     }
     // the floating-point layer: finite coordinates incl. extremes x every i32 resolution class; malformed ids
